@@ -2,7 +2,7 @@
 import ast
 
 from .astutil import dotted
-from .bitcells import (Unsupported, Param, View, PCell, TOP, merge_pcells, cells_overlap, INF)
+from .bitcells import (Unsupported, Param, View, PCell, TOP, merge_pcells, cells_overlap, INF, Maybe)
 
 MUTATORS = {'setdefault', 'update', 'pop', 'popitem', 'clear', '__setitem__', '__delitem__', 'append', 'extend', 'insert',
             'remove', 'sort', 'reverse', 'add', 'discard', 'difference_update', 'intersection_update'}
@@ -91,6 +91,7 @@ class ModuleModel:
         self.global_decl = set()
         self.table_sites = {}       # table name -> list of (kind, node) for function-level mutation sites
         self.values = {}            # lazily evaluated module-level names
+        self.attr_mutations = set()
         self.busy = set()
         self._scan()
 
@@ -171,8 +172,12 @@ class ModuleModel:
                     self.table_sites.setdefault(n.func.value.id, []).append((n.func.attr, n))
                 elif isinstance(n, (ast.Subscript,)) and isinstance(n.ctx, (ast.Store, ast.Del)) and isinstance(n.value, ast.Name):
                     self.table_sites.setdefault(n.value.id, []).append(('store', n))
-                elif isinstance(n, ast.AugAssign) and isinstance(n.target, ast.Name):
-                    pass
+                # writes through an attribute that may alias a table: <expr>.attr[k] = v, <expr>.attr.update(..)
+                if isinstance(n, ast.Call) and isinstance(n.func, ast.Attribute) and n.func.attr in MUTATORS \
+                        and isinstance(n.func.value, ast.Attribute):
+                    self.attr_mutations.add(n.func.value.attr)
+                elif isinstance(n, ast.Subscript) and isinstance(n.ctx, (ast.Store, ast.Del)) and isinstance(n.value, ast.Attribute):
+                    self.attr_mutations.add(n.value.attr)
 
     def written_by_functions(self, name):
         if self.module_sites.get(name) and name not in self.facts.tables and name not in self.facts.sets:
@@ -329,6 +334,11 @@ class Joiner:
             for cell in b.cells[vb.src]:
                 cell.d[c] = cell.off(vb.ch, vb.add)
             return View(va.src, c, 0, va.shift, va.trunc)
+        # a table value on the path where the spelling is a key, a constant on the path where it is not: TABLE.get(k, const)
+        for x, y, sx, sy in ((va, vb, a, b), (vb, va, b, a)):
+            if isinstance(x, View) and x.src[0] == 'reg' and (y is None or (isinstance(y, int) and not isinstance(y, bool))) \
+                    and sx.lookup.get(x.src) == 'hit' and sy.lookup.get(x.src) == 'miss' and x.key()[1:] == (0, 0, 0, None):
+                return Maybe(x, y)
         if isinstance(va, list) and isinstance(vb, list) and len(va) == len(vb):
             return [self.join_value(x, y, a, b) for x, y in zip(va, vb)]
         return TOP
